@@ -25,6 +25,42 @@ func CheckReleased(g *Graph, def *V, obj types.Object, releaseMethods map[string
 		se, ok := call.Fun.(*ast.SelectorExpr)
 		return ok && releaseMethods[se.Sel.Name] && ObjOf(info, se.X) == obj
 	}
+	// wrappers: y := wrap(x) for a reader that consumes x without owning it (a scanner, a
+	// buffered reader): whoever gets y has the resource in hand, so returning or storing y counts
+	// like returning or storing x
+	wrappers := map[types.Object]bool{}
+	for round := 0; round < 2 && passThrough != nil; round++ {
+		for _, v := range g.Vs {
+			as, ok := v.AST.(*ast.AssignStmt)
+			if !ok || len(as.Rhs) != 1 || len(as.Lhs) == 0 {
+				continue
+			}
+			call, ok := ast.Unparen(as.Rhs[0]).(*ast.CallExpr)
+			if !ok || !passThrough(call) {
+				continue
+			}
+			for _, a := range call.Args {
+				if ao := ObjOf(info, a); ao != nil && (ao == obj || wrappers[ao]) {
+					if lo, isVar := ObjOf(info, as.Lhs[0]).(*types.Var); isVar && !lo.IsField() {
+						if _, isID := ast.Unparen(as.Lhs[0]).(*ast.Ident); isID && lo != obj {
+							wrappers[lo] = true
+						}
+					}
+				}
+			}
+		}
+	}
+	mentionsRes := func(n ast.Node) bool {
+		if Mentions(info, n, obj) {
+			return true
+		}
+		for w := range wrappers {
+			if Mentions(info, n, w) {
+				return true
+			}
+		}
+		return false
+	}
 	var sinks []*V // vertices after which the resource is taken care of
 	for _, v := range g.Vs {
 		if v == def || v.AST == nil {
@@ -61,7 +97,7 @@ func CheckReleased(g *Graph, def *V, obj types.Object, releaseMethods map[string
 				}
 			case *ast.ReturnStmt:
 				for _, r := range x.Results {
-					if Mentions(info, r, obj) {
+					if mentionsRes(r) {
 						done = true
 					}
 				}
@@ -83,7 +119,7 @@ func CheckReleased(g *Graph, def *V, obj types.Object, releaseMethods map[string
 					}
 				}
 			case *ast.CompositeLit:
-				if Mentions(info, x, obj) {
+				if mentionsRes(x) {
 					done = true
 				}
 			case *ast.GoStmt:
